@@ -38,12 +38,24 @@ func (e *AccessorExpr) Evaluate(engine *Engine, input interface{}, args []*State
 		}
 		returnType := e.getReturnType(accessor, reflect.New(t).Interface())
 
+		// The elements of the slice may be an interface (like gedcom.Nodes). In
+		// that case the type that comes out of the accessor is not known
+		// upfront and can be different for each element.
+		if returnType == nil {
+			returnType = reflect.TypeOf([]interface{}{}).Elem()
+		}
+
 		results := reflect.MakeSlice(reflect.SliceOf(returnType), 0, 0)
 
 		for i := 0; i < in.Len(); i++ {
 			result, err := e.Evaluate(engine, in.Index(i).Interface(), nil)
 			if err != nil {
 				return nil, err
+			}
+
+			if result == nil {
+				results = reflect.Append(results, reflect.Zero(returnType))
+				continue
 			}
 
 			results = reflect.Append(results, reflect.ValueOf(result))
